@@ -218,6 +218,14 @@ def feasible_paths(cfg, start, ends, limit=3000, max_visits=1, ignore_exc=True):
                                for nm in names_of(f) for s in st)]
                 if kill:
                     facts = {k: v for k, v in facts.items() if k not in kill}
+                # constant flag assignment: `flag = True/False/None/0/1` becomes a fact
+                if isinstance(node.ast, ast.Assign) and isinstance(node.ast.value, ast.Constant) \
+                        and not isinstance(node.ast.value.value, str):
+                    facts = dict(facts)
+                    for t in node.ast.targets:
+                        d = dotted(t)
+                        if d:
+                            facts[d] = bool(node.ast.value.value)
         path.append(n)
         count[n] = count.get(n, 0) + 1
         if n in ends and len(path) > 1:
